@@ -44,6 +44,8 @@ pub enum ProvSpec {
     /// like Derive, and the principal returned is a user named after the session token in the request
     DeriveTokenPrincipal(Vec<(String, String)>),
     Fail(ErrSpec),
+    /// like Derive (the session token is not looked at), and every answer carries the identity `sut::principal_of(kind)`
+    DeriveWithPrincipal(Vec<(String, String)>, u8),
     /// key database indexed by the exact (access key, session token) pair -> secret; any other pair is answered with
     /// the error; answers carry the identity `sut::principal_of(principal)`
     PairDb { entries: Vec<(String, Option<String>, String)>, unknown: ErrSpec, principal: u8 },
@@ -63,13 +65,19 @@ impl ProvSpec {
                 sut::fixed_key_provider(a)
             }
             ProvSpec::Fail(e) => sut::failing_provider(e.clone()),
+            ProvSpec::DeriveWithPrincipal(db, kind) => {
+                let entries = db.clone();
+                let kind = *kind;
+                // any token: the store is indexed by the access key only
+                sut::principal_provider(entries, kind)
+            }
             ProvSpec::PairDb { entries, unknown, principal } => sut::pair_db_provider(entries.clone(), unknown.clone(), *principal),
         }
     }
     /// the reference's view of the same provider
     pub fn ref_answer(&self, ask: &Ask) -> Answer {
         match self {
-            ProvSpec::Derive(db) | ProvSpec::DeriveTokenPrincipal(db) => match db.iter().find(|(ak, _)| *ak == ask.access_key) {
+            ProvSpec::Derive(db) | ProvSpec::DeriveTokenPrincipal(db) | ProvSpec::DeriveWithPrincipal(db, _) => match db.iter().find(|(ak, _)| *ak == ask.access_key) {
                 Some((_, secret)) => Answer::Key(
                     refmodel::hmac::chain(secret.as_bytes(), &ask.date8, ask.region.as_bytes(), ask.service.as_bytes())
                         .ksigning,
